@@ -30,7 +30,7 @@ def _library() -> str:
 
 
 def _java(xmx: str, props: dict | None = None) -> list[str]:
-    cmd = ["java", "-XX:+UseParallelGC", f"-Xmx{xmx}", f"-DTLA-Library={_library()}"]
+    cmd = ["java", "-XX:+UseParallelGC", f"-Xmx{xmx}", "-Xss256m", f"-DTLA-Library={_library()}"]
     for k, v in (props or {}).items():
         cmd.append(f"-D{k}={v}")
     cmd += ["-cp", JAR, "tlc2.TLC"]
